@@ -6,6 +6,9 @@ if [ -n "$VP_RUN_REPO" ]; then export VERIF_REPO="$VP_RUN_REPO"; fi
 seed=${1:-1}; workers=${2:-16}
 for p in C02 C03 C04 C05 C06 C08 C11 C15 C16 C18 C19 C20; do
   echo "=== $p thorough seed=$seed"
-  VERIF_SEED=$seed ./bin/check -prop $p -tier thorough -workers $workers 2>&1 | grep -v "^instr" | cut -c1-400 | tail -12
-  echo "exit=$?"
+  VERIF_SEED=$seed ./bin/check -prop $p -tier thorough -workers $workers > /tmp/thorough_$p.$$ 2>&1
+  rc=$?
+  grep -v "^instr" /tmp/thorough_$p.$$ | cut -c1-400 | tail -12
+  rm -f /tmp/thorough_$p.$$
+  echo "exit=$rc"
 done
